@@ -853,7 +853,10 @@ impl<'input> Lexer<'input> {
                 if let Some(esc) = escape_char(c) {
                     Token::Str(StringToken::EscapedChar(esc))
                 } else {
-                    return Some(Err(LexicalError::InvalidEscapeSequence(span.start + 1)));
+                    // The span of the escaped character, which may be several bytes long.
+                    return Some(Err(LexicalError::InvalidEscapeSequence(
+                        span.start + 1..span.end,
+                    )));
                 }
             }
             StringToken::EscapedAscii(code) => {
